@@ -233,6 +233,22 @@ func init() {
 			v, ok := w.job.CfgS["env:"+name]
 			return TupleV{w.strConst(v), w.B.Bool(ok)}
 		},
+		zz + "Freeze": func(w *Worker, _ *ssa.Function, args []Value, _ ssa.CallInstruction) Value {
+			tag, _ := concreteStr(args[0].(StrV))
+			if w.frozen == nil {
+				w.frozen = map[string]Value{}
+			}
+			w.frozen[tag] = copyAggregate(*w.frozenTarget(args[1]))
+			return nil
+		},
+		zz + "Unchanged": func(w *Worker, _ *ssa.Function, args []Value, _ ssa.CallInstruction) Value {
+			tag, _ := concreteStr(args[0].(StrV))
+			old, ok := w.frozen[tag]
+			if !ok {
+				w.fail("zzv.Unchanged(%q) without Freeze", tag)
+			}
+			return w.sameShallow(old, *w.frozenTarget(args[1]))
+		},
 		zz + "FSMkdir":     nop,
 		zz + "FSTouch":     nop,
 		zz + "FSSymlink":   nop,
@@ -517,4 +533,102 @@ func (w *Worker) sprintf(format StrV, args SliceV) StrV {
 		}
 	}
 	return StrV{out}
+}
+
+
+// zzv.Freeze / zzv.Unchanged: the direct contents of one struct (nested structs and arrays
+// included; slices, maps, pointers and functions by identity) at two points of a path.
+func (w *Worker) frozenTarget(v Value) *Value {
+	iv, ok := v.(IfaceV)
+	if !ok || iv.t == nil {
+		w.fail("zzv.Freeze/Unchanged: nil argument")
+	}
+	p, ok := iv.v.(Ptr)
+	if !ok || p.p == nil || p.alts != nil || p.idx != nil {
+		w.fail("zzv.Freeze/Unchanged: argument must be a plain pointer to a struct")
+	}
+	return p.p
+}
+
+func copyAggregate(v Value) Value {
+	switch x := v.(type) {
+	case StructV:
+		c := make(StructV, len(x))
+		for i := range x {
+			c[i] = copyAggregate(x[i])
+		}
+		return c
+	case ArrayV:
+		c := make(ArrayV, len(x))
+		for i := range x {
+			c[i] = copyAggregate(x[i])
+		}
+		return c
+	}
+	return v
+}
+
+func (w *Worker) sameShallow(x, y Value) *Term {
+	b := w.B
+	switch xv := x.(type) {
+	case StructV:
+		yv, ok := y.(StructV)
+		if !ok || len(xv) != len(yv) {
+			return b.False
+		}
+		cs := make([]*Term, len(xv))
+		for i := range xv {
+			cs[i] = w.sameShallow(xv[i], yv[i])
+		}
+		return b.And(cs...)
+	case ArrayV:
+		yv, ok := y.(ArrayV)
+		if !ok || len(xv) != len(yv) {
+			return b.False
+		}
+		cs := make([]*Term, len(xv))
+		for i := range xv {
+			cs[i] = w.sameShallow(xv[i], yv[i])
+		}
+		return b.And(cs...)
+	case SliceV:
+		yv, ok := y.(SliceV)
+		if !ok {
+			return b.False
+		}
+		if len(xv.s) != len(yv.s) || cap(xv.s) != cap(yv.s) {
+			return b.False
+		}
+		if cap(xv.s) == 0 {
+			return b.Bool((xv.s == nil) == (yv.s == nil))
+		}
+		return b.Bool(&xv.s[:1][0] == &yv.s[:1][0])
+	case *FuncV:
+		yv, _ := y.(*FuncV)
+		if xv == nil || yv == nil {
+			return b.Bool(xv == nil && yv == nil)
+		}
+		return b.Bool(xv == yv || xv.fn == yv.fn && xv.builtin == yv.builtin)
+	case *MapV:
+		yv, _ := y.(*MapV)
+		return b.Bool(xv == yv)
+	case *ChanV:
+		yv, _ := y.(*ChanV)
+		return b.Bool(xv == yv)
+	case IfaceV:
+		yv, ok := y.(IfaceV)
+		if !ok {
+			return b.False
+		}
+		if xv.t == nil || yv.t == nil {
+			return b.Bool(xv.t == nil && yv.t == nil)
+		}
+		if !types.Identical(xv.t, yv.t) {
+			return b.False
+		}
+		return w.sameShallow(xv.v, yv.v)
+	case nil:
+		return b.Bool(y == nil)
+	}
+	return w.equal(x, y)
 }
